@@ -215,7 +215,7 @@ class FourierTransformer(BilateralForwardTransformer):
             elif other == sign(t) * t:
                 return -const1 * 2 / (2 * pi * f)**2
             elif other == Heaviside(t):
-                return const1 / (I * 2 * pi * f) + const1 * DiracDelta(sf) / 2
+                return const1 / (I * 2 * pi * sf) + const1 * DiracDelta(sf) / 2
             elif other == 1 / t:
                 return -const1 * I * pi * sign(sf)
             elif other == 1 / t**2:
